@@ -1,5 +1,6 @@
 import SkgVerif.Lemmas.Kriging
 import SkgVerif.Lemmas.KrigeAlgebra
+import SkgVerif.Gen.Source
 /-!
 # C09 — kriging results do not depend on how the computation is carried out
 -/
@@ -87,5 +88,11 @@ example : (findClosestSparse [(3, 4), (1, 1), (5, 0), (2, 2)] 3).Perm (findClose
 
 example : (transformLoop [.ok 1 2, .lessPoints, .ok 3 4]).sigma = [some 2, none, some 4] := by
   decide +kernel
+
+/-- per-call state: every `transform` call starts from fresh counters, a NaN buffer and cursor 0
+(the statements as they are in the source now) -/
+theorem C09_source_reset : Gen.transformSource =
+    [("singular_error", "self.singular_error = 0"), ("no_points_error", "self.no_points_error = 0"),
+     ("sigma", "self.sigma = np.ones(len(x[0])) * np.nan"), ("cursor", "self.__sigma_index = 0")] := by rfl
 
 end Skg
